@@ -1,5 +1,5 @@
 CHECK = {
-    "obligations": ["C01R.gen_relay", "C01R.c01_relay_partial", "C01R.c01_relay_witness", "C01R.c01_relay_repaired", "C01.gen_session_served", "C01.c01_prefix", "C01.c01_complete", "C01.c01_chunks_flatten", "C01.isolation", "C01.Pool.c01_pick_ok",
+    "obligations": ["C01.gen_goroutines_own_values", "C01R.gen_relay", "C01R.c01_relay_partial", "C01R.c01_relay_witness", "C01R.c01_relay_repaired", "C01.gen_session_served", "C01.c01_prefix", "C01.c01_complete", "C01.c01_chunks_flatten", "C01.isolation", "C01.Pool.c01_pick_ok",
                     "C01.Pool.c01_pick_pinned_witness", "C01.gen_loop", "C01.gen_fits", "C01.gen_unit", "C01.gen_limits",
                     "C01.gen_structure", "C01.gen_publish", "C02.c02_reassembly", "C02.c02_prefix_always", "C02.gen_structure",
                     "E2E.c01_end_to_end", "E2E.c01_end_to_end_prefix", "E2E.wire_sim", "E2E.isEnc_exists", "C04.c04_roundtrip",
